@@ -429,3 +429,48 @@ def no_self_dependence(ctx, rule='C14-T4'):
             ctx.check(f0.target == ('col', sl, 'isolated') and not f0.loops, rule, f0.func.qname, f0.node,
                       f0.loc(), 'find_groups(): isolation status is not reset before being recomputed',
                       instance='find_groups(): isolated reset first')
+
+
+def own_column_only(ctx, rule='C14-T5'):
+    """(a) A stage writes the id column of its own level and of no other: the mere presence of a later level's column
+    ('layer_id') is what the later stages and the report take for "that stage has been run", so a grouping step that
+    creates it opens metarize('layers') / metar_msg('layers') on un-layered data and closes find_groups() for good.
+    (b) A stage leaves its id column in a state its own reset can be applied to again: a column reset with None and then
+    cast to an integer dtype refuses the None of the next (permitted) call with a TypeError."""
+    data = ('attr', SELF, '_data')
+    n = 0
+    for m, binding, own, label in stage_methods(ctx, rule):
+        if not label.startswith('find_'):
+            continue
+        col = {'find_slices()': 'slice_id', 'find_groups()': 'group_id', 'find_layers()': 'layer_id'}[label]
+        ex, s = run_inlined(ctx, m, binding)
+        resets, casts = [], []
+        for e in s.events:
+            if e.kind not in ('store', 'aug') or e.guard == T.FALSE or e.target is None or T.root(e.target) != data:
+                continue
+            t = e.target
+            cols = {t[2]} if tag(t) == 'col' else ({t[3]} if tag(t) == 'cell' else (set(t[2]) if tag(t) == 'cols' else set()))
+            ids = {c for c in cols if isinstance(c, str)} & set(IDCOLS)
+            for c in sorted(ids):
+                n += 1
+                ctx.check(c == col, rule, e.func.qname, e.node, e.loc(),
+                          f'{label} writes {c!r}, the id column of another level: the existence of that column is what tells '
+                          f'the other stages (and metarize / metar_msg) that the {STAGE_NAMES[IDCOLS[c]]} have been computed',
+                          instance=f'{label}: writes {col} only')
+            if col in ids and tag(e.target) == 'col' and e.target[1] == data:
+                v = T.peel(e.value) if tag(e.value) != 'mcall' else e.value
+                if T.is_const(e.value) and not e.loops:
+                    resets.append(e)
+                if tag(v) == 'mcall' and v[2] == 'astype' and v[3] and (v[3][0] in (('g', 'builtins.int'), C('int'), C('int64'))
+                                                                         or T.show(v[3][0]).endswith('int64')):
+                    casts.append(e)
+        for r in resets[:1]:
+            if r.value == T.NONE:
+                bad = [c for c in casts if c.seq > r.seq]
+                ctx.check(not bad, rule, (bad[0].func.qname if bad else m.qname), (bad[0].node if bad else r.node),
+                          (bad[0].loc() if bad else r.loc()),
+                          f'{label} resets {col!r} with None and later casts the column to an integer dtype: when the stage '
+                          'is called again - a permitted call - the reset is refused by pandas (TypeError: None is not a '
+                          'valid value for an integer column), after parts of the chunk have already been cleared',
+                          instance=f'{label}: the reset value of {col} stays storable in the column')
+    ctx.floor(rule, 'stores to id columns by the stage methods', n, 6)
